@@ -245,15 +245,15 @@ example : ¬ C19_DetectorSeesModification := by
 
 /-- a body that is a parsed script: if all its output variables are under the prefix and every
     command it can call writes only under the prefix, it satisfies the frame hypothesis
-    (whatever the fuel, i.e. also for runs that the model cuts off) -/
+    (whatever the fuel and whenever the embedder halts the evaluation) -/
 theorem C19_script_body_frame {scope : Str} {sem : CmdSem σ} {is : List Instruction}
-    (hsem : SemFrame scope sem) (hout : OutputsUnder scope is) (fuel : Nat) :
-    BodyFrame scope (scriptBody sem fuel is) := by
+    (hsem : SemFrame scope sem) (hout : OutputsUnder scope is) (halt : Nat → Bool) (fuel : Nat) :
+    BodyFrame scope (scriptBody sem halt fuel is) := by
   intro vars st k hk
   unfold scriptBody
-  cases h : evalInstructions sem is fuel 0 none vars st with
+  cases h : evalInstructions sem halt is fuel 0 0 none vars st with
   | none => rfl
-  | some res => exact evalInstructions_frame hsem hout fuel 0 none vars st res h k hk
+  | some res => exact evalInstructions_frame halt hsem hout fuel 0 0 none vars st res h k hk
 
 /-! ### per-script facts over the regenerated table -/
 
@@ -303,13 +303,14 @@ theorem C19_scripts_callees :
     under that prefix leaves the caller's variables as they were -/
 theorem C19_scripts_frame :
     ∀ s ∈ Generated.scripts, ∀ is, parseText s.script = .ok is →
-      ∀ (H : HandleOps σ) (sem : CmdSem σ) (fuel : Nat) (args : List Str) (vars : Vars) (st : σ),
+      ∀ (H : HandleOps σ) (sem : CmdSem σ) (halt : Nat → Bool) (fuel : Nat) (args : List Str)
+        (vars : Vars) (st : σ),
         SemFrame s.scopeName sem → CallerClean s.scopeName vars →
-        ∀ k, Vars.get (aliasRun H s.argumentsAmount (scriptBody sem fuel is) s.scopeName args vars st).2.1 k
+        ∀ k, Vars.get (aliasRun H s.argumentsAmount (scriptBody sem halt fuel is) s.scopeName args vars st).2.1 k
               = Vars.get vars k := by
-  intro s hs is hp H sem fuel args vars st hsem hcaller
+  intro s hs is hp H sem halt fuel args vars st hsem hcaller
   apply C19_wrapper_frame H _ _ _ _ _ _ _ hcaller
-  apply C19_script_body_frame hsem _ fuel
+  apply C19_script_body_frame hsem _ halt fuel
   intro i hi si hty o ho
   apply C19_scripts_prefix_discipline s hs is hp
   simp only [writtenVars, List.mem_flatMap]
